@@ -85,6 +85,15 @@ def cases(tier, seed):
                 spec = gen.make_spec(rng, D=int(rng.choice([1, 2, 3])), geom=str(rng.choice(["lin", "unb", "log"])), x0mode="in", land=str(rng.choice(["l1", "ramp", "rosen"])),
                                      where="out", mode=mode, options={"noise_final_samples": nfs}, max_fun_evals=mfe, sigma=float(rng.choice([0.1, 1.0])))
                 out.append({"spec": spec, "kind": "budget-grid"})
+    # the budget (or the iteration limit) is set on the CONSTRUCTED object before optimize(), after a larger value was given
+    # to the constructor: the run is bound by the value in force when optimize() starts
+    for j_ in range(16 if tier == "quick" else 160):
+        rng = gen.rng_for(seed, "C03", 650000 + j_)
+        mode = ["det", "auto", "declared", "he"][j_ % 4]
+        spec = gen.make_spec(rng, D=int(rng.choice([1, 2, 3])), geom=str(rng.choice(["lin", "unb", "log"])), x0mode="in", land=str(rng.choice(["l1", "ramp", "rosen"])),
+                             where="out", mode=mode, options=({"noise_final_samples": int(rng.choice([1, 3, 10]))} if mode != "det" else {}), max_fun_evals=int(rng.choice([150, 200])))
+        spec["late_options"] = {"max_fun_evals": int(rng.choice([45, 60, 70]))} if j_ % 3 else {"max_iter": int(rng.choice([2, 3]))}
+        out.append({"spec": spec, "kind": "late-options"})
     out += C.option_variation_slice("C03", tier, seed, kind="option-variation")
     return out
 
